@@ -53,3 +53,6 @@ def run(ctx):
         ctx.bump("k11_targeted", "hit" if any(b["kind"] == "group_not_identical" for b in r["oracle_bad"]) else "no-merge")
     G.process_results(ctx, eng, res)
     cli_sample(ctx, eng, [G.gen_spec(ctx.rng.fork(), "C01", small=True) for _ in range(ctx.pick(16, 200))])
+    # cache history at the CLI level ("with or without the hash cache"): stale entries after an in-place rewrite
+    G.cache_history_check(ctx, eng, ctx.pick(8, 80))
+
